@@ -128,6 +128,20 @@ def main():
         else:
             pats.append(a)
     work = []
+    ext = [a for a in pats if a.endswith(".diff") and os.path.exists(a)]
+    if ext:
+        # external patches: selftest/run_mutants.py /path/patch.diff C05,C10 [...]
+        pats2 = [a for a in pats if a not in ext]
+        props = pats2[0].split(",") if pats2 else ALL
+        results = []
+        for path in ext:
+            r = one(os.path.basename(os.path.dirname(path)) + "-" + os.path.basename(path), props, None, path, tier, 16, False)
+            ck = " ".join("%s:%s" % (p, c["rc"]) for p, c in r.get("checks", {}).items())
+            print("%-16s %s %s %s" % (r["status"], path, ck, r.get("detail", "") or r.get("baseline", "")))
+            for p, c in r.get("checks", {}).items():
+                if c["rc"] == 1:
+                    print("    %s: %s" % (p, ", ".join(c["signatures"][:4])))
+        return 0
     for name, (props, edits) in mutants.M.items():
         work.append((name, props, edits, None))
     owners = json.load(open(os.path.join(HERE, "revert_owners.json"))) if os.path.exists(os.path.join(HERE, "revert_owners.json")) else {}
